@@ -243,6 +243,7 @@ func (e *Env) Exec(a Action, raw map[string]any) (st Step) {
 					_ = e.K.BeginBlocker(dctx)
 				}()
 				st.Extra.Nx = e.B.fault.Count
+				e.HookLog = nil
 			}
 			cctx, write := bctx.CacheContext()
 			e.B.fault.Armed, e.B.fault.Countdown, e.B.fault.Count = a.Fault > 0, int(a.Fault), 0
